@@ -257,6 +257,12 @@ static void run_conversions(Ctx& ctx) {
     if (ctx.want(id)) {
       ctx.begin_case(id);
       std::vector<i128> Xs = {0, 1, -1, (Q - 1) / 2, -(Q - 1) / 2, (Q - 1) / 2 - 1, -(Q - 1) / 2 + 1, (i128)1 << 100, -((i128)1 << 100), (i128)INT64_MAX * 3, Q / 3};
+      // values with equal small residues modulo a subset of the primes: t * prod(subset) + r (every subset of size 2 and 3)
+      for (int mask = 1; mask < 16; ++mask) {
+        if (__builtin_popcount(mask) < 2 || mask == 15) continue;
+        i128 P = 1; for (int k = 0; k < 4; ++k) if (mask >> k & 1) P *= (i128)QS[k];
+        for (i128 t : {(i128)1, (i128)-1, (i128)3, (i128)-5}) for (i128 r : {(i128)0, (i128)1, (i128)42, (i128)-7}) { i128 v = t * P + r; if (v <= (Q - 1) / 2 && v >= -(Q - 1) / 2) Xs.push_back(v); }
+      }
       for (int i = 0; i < 200; ++i) { i128 v = (i128)((((u128)rng.next() << 64) | rng.next()) % (u128)Q); Xs.push_back(v - (Q - 1) / 2); }
       const uint64_t n3 = Xs.size();
       GBuf b(n3 * 32, 8), z(n3 * 16, 0);
